@@ -497,8 +497,8 @@ class Grammar(Model):
         keywords = keywords or config.keywords or ()
         keywords = tuple(k for k in keywords or () if k)
         assert isinstance(keywords, tuple)
-        if self.config.ignorecase:
-            keywords = tuple(k.upper() for k in keywords if k)
+        # NOTE: keywords keep their declared case: whether they are compared
+        #   ignoring case is decided by the configuration of each parse
         keywords = tuple(sorted(set(keywords)))
         assert isinstance(keywords, tuple)
         self.keywords = keywords
